@@ -3,6 +3,7 @@
   for the integer-only operations.  Core Lean only.
 
     rngmain          executes the REGENERATED definitions (Generated/Rng.lean) through Rng/Bridge.lean's `step`
+    rngmain main     the same, but `run` does not reset the state (all runs on one thread, as `rngdrv main`)
     rngmain spec     executes the documented generator (Rng/Spec.lean): seed / raw / rawd / u53 only
 -/
 import CimbaModel.Rng.Bridge
@@ -13,6 +14,8 @@ open CimbaModel.Generated CimbaModel.Rng Drivers
 structure St where
   s : RngState := RngState.init
   runs : Nat := 0
+  /-- `rngmain main`: all runs on one thread, the state carries over from run to run -/
+  carry : Bool := false
 
 def outWord : Out → UInt64
   | .word w => w
@@ -42,7 +45,7 @@ def hexList (a : Array UInt64) : String := a.foldl (fun acc w => acc ++ " " ++ h
 
 def stepLine (st : St) (ws : List String) : St × String :=
   match ws with
-  | ["run"] => ({ s := RngState.init, runs := st.runs + 1 }, s!"run {st.runs}\n")
+  | ["run"] => ({ st with s := if st.carry then st.s else RngState.init, runs := st.runs + 1 }, s!"run {st.runs}\n")
   | ["seed", x] =>
     match x.toNat? with
     | some v => ({ st with s := cmb_random_initialize (UInt64.ofNat (v % 2 ^ 64)) st.s }, "seed\n")
@@ -94,4 +97,4 @@ def main (args : List String) : IO Unit := do
   if args == ["spec"] then
     let _ ← loop stdin stdout specLine ({} : SpecSt)
   else
-    let _ ← loop stdin stdout stepLine ({} : St)
+    let _ ← loop stdin stdout stepLine ({ carry := args == ["main"] } : St)
